@@ -21,7 +21,14 @@ CtorLines == UNION {UNION {{[k |-> "mark", api |-> api, xs |-> <<[keys |-> SubSe
 \* the mark API itself: receiver and source values, each possibly marked (top level or nested)
 MarkApiLines == UNION {UNION {{[k |-> "mark", api |-> api, xs |-> <<[none |-> TRUE]>>, a |-> s, vs |-> SetToSeq(MarkMembers(s) \cup {s})]
                                : api \in (IF Len(s) = 1 THEN {"Unmark", "UnmarkDeep", "WithSameMarks"} ELSE {"WithSameMarks", "WithMarks"})} : s \in MemberLists(t)} : t \in ElemT}
-Lines == IF Fam = "convert" THEN ConvLines ELSE CtorLines \cup MarkApiLines
+\* constructors given a Go map whose keys are two spellings of ONE name (normalized and not): which entry survives is the
+\* caller's problem, but whatever is returned must be a well-formed value (declared attribute type = payload)
+DupVals == {NumV(4), StrV(<<"a">>), BoolV(TRUE), SeqV(TList(TNum), <<NumV(0)>>), Null(TStr), Unk(TNum, NoRf), MapV(TObj([a |-> TNum]), [a |-> NumV(0)])}
+DupKeyLines == {[k |-> "call", api |-> "ObjectVal", xs |-> <<[keys |-> ks, dup |-> TRUE]>>, a |-> <<v1, v2>>, vs |-> <<>>]
+                 : v1 \in DupVals, v2 \in DupVals, ks \in {<<"eacute", "eacute:nfd">>, <<"omega:nfd", "omega">>}}
+               \cup {[k |-> "call", api |-> "MapVal", xs |-> <<[keys |-> <<"eacute", "eacute:nfd">>, dup |-> TRUE]>>, a |-> <<v1, v2>>, vs |-> <<>>]
+                     : v1 \in {NumV(4), Null(TNum)}, v2 \in {NumV(0), Unk(TNum, NoRf)}}
+Lines == IF Fam = "convert" THEN ConvLines ELSE CtorLines \cup MarkApiLines \cup DupKeyLines
 ASSUME LET sq == SetToSeq(Lines) IN ndJsonSerialize(IOEnv.VOUT, sq) /\ PrintT(<<"GEN", Len(sq)>>)
 VARIABLE x
 Init == x = 0
